@@ -358,7 +358,28 @@ def plan_math(pid, tier, seed):
     )
 
 
+def plan_growth(pid, tier, seed):
+    """growth beyond the 18 listed properties; not claimed in MANIFEST.json; evidence goes to growth/<id>.json"""
+    if pid == "G01":
+        ops = ",".join("bits_" + o for o in ("and", "or", "xor", "not", "shl", "shr", "count", "rotate", "pow2"))
+        gens = [dict(name="bits", profile="unchecked", bin="arith", dom="big", per_shard=6000,
+                     args=["--topic", ops, "--big", "--widths", "8,32,128" if tier == "quick" else "8,16,32,64,128", "--seed", str(seed)])]
+        return dict(bins=["arith"], profiles=["unchecked"], gens=gens, designs=[], growth=True,
+                    nontrivial=lambda line: '"a":[0],' not in line,
+                    rule="growth: & | ^ ! (value and assigning forms), << >> in plain/checked/wrapping/overflowing/assigning forms with amounts "
+                         "0..2w and u32::MAX, count_ones/zeros, leading/trailing_zeros, rotate_left/right, is_power_of_two / "
+                         "next_power_of_two / checked_next_power_of_two, judged on the two's complement pattern (tla/sem/SemBits.tla)",
+                    assumptions=["not one of the 18 listed properties"])
+    gens = [dict(name="consts", profile="unchecked", bin="math", dom="big", per_shard=100, args=["--topic", "consts"])]
+    return dict(bins=["math"], profiles=["unchecked"], gens=gens, designs=[], growth=True, nontrivial=lambda line: True,
+                rule="growth: each of the 28 constants of src/consts.rs lies within one unit in the last place of its reference value "
+                     "computed in TLA+ at 200 fractional bits (pi by Machin, ln 2, e = exp(1), sqrt by integer Newton, quotients thereof)",
+                assumptions=["not one of the 18 listed properties"])
+
+
 PLANS = {
+    "G01": lambda t, s: plan_growth("G01", t, s),
+    "G02": lambda t, s: plan_growth("G02", t, s),
     "C12": lambda t, s: plan_math("C12", t, s),
     "C13": lambda t, s: plan_math("C13", t, s),
     "C14": lambda t, s: plan_math("C14", t, s),
@@ -497,7 +518,8 @@ def run_check(pid, tier, seed, replay=None):
     )
     for k, v in plan.get("extra_cov", {}).items():
         cov[k] = v
-    core.write_evidence(pid, tier, seed, cov, time.time() - t0, nviol, plan["assumptions"])
+    core.write_evidence(pid, tier, seed, cov, time.time() - t0, nviol, plan["assumptions"],
+                        outdir=os.path.join(core.ROOT, "growth") if plan.get("growth") else None)
     # clean bulky traces
     if not os.environ.get("VERIF_KEEP"):
         for p in paths:
